@@ -78,6 +78,7 @@ THEOREMS = [
     "PV.C08.OrderCert.congr",
     "PV.C08.C08_gain_plscf_range",
     "PV.C08.C08_ms_gain_plscf_ms",
+    "PV.C08.C08_ms_gain_efdd_ms",
     # FDD under a channel permutation, composed to the result of FDD_mpe (Props/C08Perm.lean)
     "PV.C08.fddOne_perm",
     "PV.C08.C08_perm_fdd_mpe",
